@@ -119,3 +119,28 @@ impl LuaIndex for DiagnosticIndex {
         self.file_diagnostic_enabled.clear();
     }
 }
+
+#[cfg(feature = "verif-hooks")]
+impl DiagnosticIndex {
+    /// verif hook H1: entry counts of every map of this index
+    pub fn verif_sizes(&self, out: &mut Vec<(String, usize)>) {
+        out.push(("diagnostic.diagnostic_actions".into(), self.diagnostic_actions.len()));
+        out.push((
+            "diagnostic.diagnostic_actions.sum".into(),
+            self.diagnostic_actions.values().map(|v| v.len()).sum(),
+        ));
+        out.push(("diagnostic.diagnostics".into(), self.diagnostics.len()));
+        out.push((
+            "diagnostic.diagnostics.sum".into(),
+            self.diagnostics.values().map(|v| v.len()).sum(),
+        ));
+        out.push((
+            "diagnostic.file_diagnostic_disabled".into(),
+            self.file_diagnostic_disabled.len(),
+        ));
+        out.push((
+            "diagnostic.file_diagnostic_enabled".into(),
+            self.file_diagnostic_enabled.len(),
+        ));
+    }
+}
